@@ -42,7 +42,9 @@ def dfc(y, m, d):
 
 def gen(tier, rng):
     out = []
-    quick = tier == "quick"
+    # "search" (the engine's targeted search after a broken correspondence, up to 5 rounds with fresh seeds inside a
+    # 90 s budget) uses the quick sizes: a thorough-sized round would take minutes per harness variant
+    quick = tier in ("quick", "search")
     # --- days
     days = set()
     w = 3 if quick else 400
@@ -197,6 +199,7 @@ def gen_cal(tier, rng, quick):
             out.append(f"ymwd_to {y} {m} {R(0, 6)} {R(7, 255)}")
         for m in [0, 13, 14, 254, 255]:
             out.append(f"ymdl_bad {y} {m}")
+            out.append(f"ymdl_badv {y} {m}")
             out.append(f"ymdl_ok {y} {m}")
             out.append(f"ymwd_ok {y} {m} {R(0, 6)} {R(1, 5)}")
             out.append(f"ymwdl_ok {y} {m} {R(0, 6)}")
